@@ -215,11 +215,40 @@ def run(ctx):
             ok = '.DbInner.lock_file' in lib.receiver_fields(d, d.term(u), 0)
             ctx.ob('3e unlock-receiver', 'K4-provenance', d.path, 'unlock is applied to DbInner.lock_file', ok, '')
     # the lock file is never unlinked (a deleted lock file lets a second opener lock a fresh one)
-    lib.callers_confined(ctx, '3h remove_file-callers', F, ['std::fs::remove_file', 'std::fs::remove_dir_all', 'std::fs::rename'],
+    lib.callers_confined(ctx, '3h remove_file-callers', F, ['std::fs::remove_file', 'std::fs::rename'],
                          {'log::Log::open', 'log::Log::drop_log', 'column::Column::drop_files', 'file::TableFile::remove', 'index::IndexTable::drop_file',
-                          'ref_count::RefCountTable::drop_file', 'migration::deplace_column', 'migration::migrate::{closure#2}',
+                          'ref_count::RefCountTable::drop_file', 'migration::deplace_column',
                           'options::Options::write_metadata_file_with_version'},
                          'files are unlinked/renamed only by the known log, table, index, ref-count, migration and metadata sites - none of which can name the lock file', required=['log::Log::drop_log'])
+    # a directory removal takes the `lock` file inside it along: a handle alive on that directory loses its lock (a second open then
+    # succeeds) and its files. The private directories of an in-place migration are the only ones the library removes; each removal is
+    # made under the directory's own lock (F66; the closure of migrate that removes the revert directory used to be a reviewed
+    # exception of 3h - "cannot name the lock file" was wrong for a recursive removal)
+    nrm = 0
+    for rb in sorted(F.bodies.values(), key=lambda x: x.path):
+        for s_ in rb.call_sites('std::fs::remove_dir_all'):
+            if s_ not in rb.normal_blocks():
+                continue
+            nrm += 1
+            locks = [x for x in rb.call_sites('re:try_lock_exclusive$', 're:FileExt.*::try_lock_exclusive$') if rb.dominates(x, s_)]
+            ok = False
+            det = 'no try_lock_exclusive dominates the removal'
+            for x in locks:
+                errs = lib.result_err_targets(rb, x)
+                # the lock error leaves the function (the removal is not reached on the Err edge)
+                reach_on_err = any(s_ in rb.reaches(e) or s_ == e for e in errs)
+                # the locked file lives in the directory that is removed: both derive from the same parameter / local
+                ra = backward_slice(rb, [op_place(a) for a in rb.term(s_)['a'] if op_place(a) is not None])
+                la = backward_slice(rb, [op_place(a) for a in rb.term(x)['a'] if op_place(a) is not None])
+                same = bool((ra.params & la.params) or (ra.fields & la.fields and any(f_.endswith('path') for f_ in ra.fields & la.fields)))
+                named_lock = any(sc == 'lock' for _, sc in lib.str_consts(rb))
+                if errs and not reach_on_err and same and named_lock:
+                    ok = True
+                else:
+                    det = 'lock at %s: err edges %s, removal reachable on error %s, same directory %s, file named "lock" %s' % (rb.loc(x), errs, reach_on_err, same, named_lock)
+            ctx.ob('3i directory-removed-only-under-its-lock %s #%d' % (rb.path, nrm), 'K2-order', rb.path,
+                   'remove_dir_all is dominated by a successful try_lock_exclusive on the file `lock` inside the directory it removes', ok, '' if ok else det, rb.loc(s_))
+    ctx.ob('3i0 directory-removals', 'anchor', '-', 'the recursive directory removals of the crate were found', nrm >= 1, 'found %d' % nrm)
     # the metadata writer renames its temporary file over the path it is given: that path is <dir>/metadata, never <dir>/lock
     for fn in ('options::Options::write_metadata_with_version',):
         b = F.body(fn)
